@@ -40,3 +40,6 @@ func IntRange(name string, lo, hi int64) int64 { sym(); return 0 }
 func ResetReplay()                       { sym() }
 func Settle()                            { sym() }
 func Tag(s string)                       { sym() }
+
+// ExpireDeadline lets the nearest pending deadline of a context expire (symbolic run only; used by library models).
+func ExpireDeadline(ctx interface{}) bool { sym(); return false }
